@@ -142,8 +142,9 @@ class ExprGen:
             return ("bin", r.choice(["&", "*", "|", "+"]), ("num", r.choice([0, 0, 1])), ("fn", "random", [self.rbound()]))
         if self.allow_random and self.allow_div and r.random() < 0.06:
             # both operands draw (left first), or the right one is zero AFTER the left one has drawn
-            right = r.choice([("fn", "random", [self.rbound()]), ("num", 0), ("bin", "-", ("num", 1), ("num", 1))])
-            return ("bin", r.choice(["/", "%", "-", "<<"]), ("fn", "random", [self.rbound()]), right)
+            left = ("fn", "random", [self.rbound()])
+            right = r.choice([("fn", "random", [self.rbound()]), left, left, ("num", 0), ("bin", "-", ("num", 1), ("num", 1))])
+            return ("bin", r.choice(["/", "%", "-", "<<", "^", "=", "!="]), left, right)
         if x < 0.65:
             ops = BINOPS if self.allow_div else [o for o in BINOPS if o not in "/%"]
             op = r.choice(ops)
@@ -194,7 +195,7 @@ def gen_signals(rng, n_in=None, n_out=None, n_bidir=None, wide=False, odd_names=
     names_out = ["Q", "R", "S", "T", "U"]
     names_bi = ["BUS", "IO"]
     if scope_names:
-        names_out = ["n", "i1", "v1", "Q", "w1"]
+        names_out = ["n", "i1", "v1", "Q", "w1"] if rng.random() < 0.7 else ["ite", "random", "signExt", "bits", "n"]
         rng.shuffle(names_out)
     if odd_names and rng.random() < 0.5:
         names_in = ["A-1", "~B", "ÄÖÜßäöü", "é", "IN[0]"]
@@ -411,6 +412,15 @@ class ProgGen:
                     if r.random() < p.get("own_counter", 0.08):
                         # the body re-binds the loop's own counter (upwards, so the loop still ends): the next pass continues from it
                         body.insert(r.randrange(0, len(body) + 1), ("let", v, ("bin", "+", ("var", v), ("num", r.choice([0, 1, 1, 2])))))
+                    elif r.random() < p.get("own_counter", 0.08) / 2:
+                        # ... or ONCE back to a negative value (a guard variable makes sure it happens once): the loop goes on from there
+                        g = self.fresh("g")
+                        out.append(("let", g, ("num", 0)))
+                        scope.append(g)
+                        body.append(("let", v, ("fn", "ite", [("bin", "&", ("bin", "=", ("var", g), ("num", 0)), ("bin", "=", ("var", v), ("num", 1))),
+                                                               ("un", "-", ("num", r.choice([2, 3, 5]))), ("var", v)])))
+                        body.append(("let", g, ("bin", "|", ("var", g), ("bin", "=", ("var", v), ("un", "-", ("num", 2))))))
+                        body.append(("let", g, ("bin", "|", ("var", g), ("bin", "<", ("var", v), ("num", 0)))))
                     out.append(("loop", v, bound, body))
                     self.dead.append(v)
                 elif kind < 0.7:
@@ -658,6 +668,8 @@ def gen_faults(rng, script, nsigs, ncalls_hint, kinds):
         return [(k, "subst %d %d" % (rng.randrange(0, n), rng.randrange(0, nsigs)))]
     if kind == "widen":
         return [(k, "widen %d" % rng.randrange(0, n))]
+    if kind == "addw":
+        return [(k, "addw %d" % rng.randrange(0, nsigs))]
     raise ValueError(kind)
 
 
